@@ -287,7 +287,7 @@ func (worldS) Gen(r *core.Rand, env *core.Env) SCase {
 	if c.ValMode == 0 {
 		c.NegMode = core.Pick(r, []int{0, 0, 1, 2, 3}) // drawn last: everything else is what the seed produced before
 	}
-	if env.Property == "C02" || env.Property == "C03" {
+	if env.Property == "C02" || env.Property == "C03" || env.Property == "C01" {
 		// one history in four: some of its flushes run in the "flush times loading" state (seeded change C03-e needed
 		// out-of-order rows newer than every ordered file); decided by a generator of its own
 		if fr := core.NewRand(c.ReadSeed ^ 0x6c6f6164); fr.Intn(4) == 0 {
